@@ -156,3 +156,41 @@ pub fn commit_once<DB: DatabaseRef>(
         Err(error) => CommitProbe::Error(error),
     }
 }
+
+/// A [`WaitSlot`](super::wait::WaitSlot) with a boolean condition, for the wait/notify kernel.
+pub struct WaitDriver {
+    slot: super::wait::WaitSlot,
+    ready: std::sync::atomic::AtomicBool,
+}
+
+impl Default for WaitDriver {
+    fn default() -> Self {
+        Self::new()
+    }
+}
+
+impl WaitDriver {
+    pub fn new() -> Self {
+        Self { slot: super::wait::WaitSlot::new(), ready: std::sync::atomic::AtomicBool::new(false) }
+    }
+    pub fn register_current_thread(&self) {
+        self.slot.register_current_thread();
+    }
+    pub fn set_ready(&self, value: bool) {
+        self.ready.store(value, std::sync::atomic::Ordering::Release);
+    }
+    pub fn notify(&self) {
+        self.slot.notify();
+    }
+    /// `wait_while(!ready)`; every evaluation of the predicate is passed to `seen`. Returns the
+    /// last value of `blocked()`.
+    pub fn wait_while_not_ready(&self, timeout: std::time::Duration, mut seen: impl FnMut(bool)) -> bool {
+        let mut last = true;
+        self.slot.wait_while(timeout, || {
+            last = !self.ready.load(std::sync::atomic::Ordering::Acquire);
+            seen(last);
+            last
+        });
+        last
+    }
+}
